@@ -288,6 +288,11 @@ def run(ctx):
                                timeout=1200, simulate=f"num={6 if q else 40}", depth=30, seed=ctx.seed + 71)
     scens = C04.dedup(scens)
     k = 4 if q else 8
+    small = runner.sharded_tlc(ctx, "GenScen", C04.CFG.format(profile="c14s", shard="@SHARD@", nshards="@NSHARDS@"), 8,
+                               "GenScen_c14s", timeout=900)
+    small = [sc for sc in C04.dedup(small) if len({e["plat"] for e in sc["ents"]}) == 2 and len(sc["files"]) >= 3]
+    ctx.cov["scenarios_exhaustive_c14s"] = len(small)
+    scens = small + scens
     pairs = [(sc, rnd.sample(scheds, k)) for sc in scens]
     dups = runner.sharded_tlc(ctx, "Duplicates", C16.GEN_CFG.format(n=4, pool=C16.tla_set(["", "a", "A"]),
                                                                     kinds=C16.tla_set(["reg", "sym", "hard"]),
